@@ -749,7 +749,9 @@ func c19Gen(g *hx.Gen) {
 		}
 	}
 	// ---- Promise, forced: all orderings of the take/put steps for small sets of calls
-	sets := []string{"F1,W", "W,F1", "F1,F2", "F1,W,F2", "W,F1,W", "F1,F2,W", "X2.7,W,F1", "F1,X2.7,W", "W,W,F1", "F1,W,X3.8"}
+	// (Fn = Fulfill(nil): a legal call; the message {nil, nil} counts as set)
+	sets := []string{"F1,W", "W,F1", "F1,F2", "F1,W,F2", "W,F1,W", "F1,F2,W", "X2.7,W,F1", "F1,X2.7,W", "W,W,F1", "F1,W,X3.8",
+		"Fn,F1", "Fn,F1,W", "Fn,W,F1", "F1,Fn,W", "Fn,X2.7,W"}
 	for _, fl := range []string{"000", "001", "010"} {
 		for _, set := range sets {
 			n := strings.Count(set, ",") + 1
@@ -771,7 +773,8 @@ func c19Gen(g *hx.Gen) {
 	// error): all orderings of the two steps of each call; sampled in the quick tier
 	allFlags := []string{"000", "001", "010", "011", "100", "101", "110", "111"}
 	allSets := []string{"F1,B,W", "F1,W,B", "W,B,F1", "B,W,F1", "F1,B,F2", "F1,R2,W", "F1,W,R2", "X2.7,R3,W",
-		"X2.7,Rn,W", "W,F1,Rn", "F1,Rn,F2", "F1,F2,W", "Fn,X5.7,W", "Xn.n,X5.7,W", "X5.n,F1,W", "W,W,B"}
+		"X2.7,Rn,W", "W,F1,Rn", "F1,Rn,F2", "F1,F2,W", "Fn,X5.7,W", "Xn.n,X5.7,W", "X5.n,F1,W", "W,W,B",
+		"Fn,F1,W", "Fn,W,F2", "Fn,Fn,W", "Xn.n,F1,W"}
 	for _, fl := range allFlags {
 		for _, set := range allSets {
 			multisetPerms([]byte{'a', 'b', 'c'}, []int{2, 2, 2}, func(s string) bool {
@@ -791,7 +794,7 @@ func c19Gen(g *hx.Gen) {
 		}
 	}
 	// four goroutines: sampled in the quick tier, exhaustive in the thorough one
-	for _, set := range []string{"F1,W,W,F2", "W,F1,F2,W", "F1,X2.7,W,W", "F1,F2,F3,W"} {
+	for _, set := range []string{"F1,W,W,F2", "W,F1,F2,W", "F1,X2.7,W,W", "F1,F2,F3,W", "Fn,W,F1,W"} {
 		letters := []byte{'a', 'b', 'c', 'd'}
 		multisetPerms(letters, []int{2, 2, 2, 2}, func(s string) bool {
 			g.Casef("pp 000 %s %s", set, s)
